@@ -144,6 +144,19 @@ func (w *World) buildOutputs(specs []OutSpec) (cashu.BlindedMessages, []any, boo
 			}
 			oi = w.NewOutput(secID, sp.Lock, ksReal, amt)
 		}
+		if sp.Form == "upper" {
+			// the same blinded message spelled in upper-case hex: another string for the same point.  It is an output of its
+			// own for the registry (the mint stores signatures by the string it was sent).
+			w.Reg.mu.Lock()
+			w.Reg.nOut++
+			up := &OutputInfo{ID: fmt.Sprintf("b%d", w.Reg.nOut), Sec: oi.Sec, R: oi.R, B_: strings.ToUpper(oi.B_), KsReal: oi.KsReal, Amt: amt}
+			w.Reg.Outputs[up.ID] = up
+			w.Reg.outByB[up.B_] = up.ID
+			w.Reg.OutOrder = append(w.Reg.OutOrder, up.ID)
+			w.Reg.mu.Unlock()
+			oi = up
+			sp.Form = "ok"
+		}
 		B_ := oi.B_
 		form := sp.Form
 		if form == "" {
